@@ -15,5 +15,6 @@ CONSTANTS
   AllowConcurrent = TRUE
   GcStopsOnUnreadableHunk = TRUE
   GcBandsBeforeBlocks = TRUE
+  GcRefusesHeadlessNewest = TRUE
 INVARIANTS Inv_QuiescentNoLoss Inv_RecordedBytes
 CHECK_DEADLOCK FALSE
